@@ -51,6 +51,11 @@ def FltKind.ofCode : Nat → FltKind
 inductive Ty where
   | any | bool | int (k : IntKind) | flt (k : FltKind) | str | bytes
   | slice (e : Ty) | arr (e : Ty) | map (k v : Ty)
+  /-- the value slot of a map of an *unexported* named type of the library (at present only
+      `tags.cycleCounters`, a `map[string]int` holding the cycle positions of a loop execution):
+      `.map .str .priv kvs`. No binding can have this type (the line protocol does not decode it),
+      so such a value always originates in the renderer. It behaves like `int` everywhere else. -/
+  | priv
   deriving Repr, DecidableEq, Inhabited
 
 inductive GoVal where
@@ -108,6 +113,7 @@ def Ty.enc : Ty → String
   | .any => "a" | .bool => "o" | .int k => s!"i{k.code}" | .flt k => s!"d{k.code}"
   | .str => "s" | .bytes => "y" | .slice e => "l" ++ e.enc | .arr e => "r" ++ e.enc
   | .map k v => "m" ++ k.enc ++ v.enc
+  | .priv => "z"
 
 mutual
 def GoVal.enc : GoVal → String
